@@ -146,6 +146,7 @@ class Interp:
         self.pc = []
         self.solver = z3.Solver()
         self.solver.set("timeout", 400)
+        self.solver.set("rlimit", 3000000)      # deterministic resource bound (timeouts are not always honoured)
         self.fresh_n = 0
         self.assumed_foralls = {}
         self.pc_ids = set()
@@ -162,6 +163,7 @@ class Interp:
         self.steps = 0
         self.covers = []
         self.rebind = None
+        self.dry = explorer.dry
 
     # ------------------------------------------------------------------ path control
     def fresh(self, prefix, sort):
@@ -313,6 +315,11 @@ class Interp:
         goal = z3.simplify(goal)
         if goal.get_id() in self.pc_ids:
             self.trivial.append(name)      # literally one of the assumptions
+            return
+        if self.dry:
+            # path enumeration only: no hypotheses are instantiated, nothing is recorded
+            if assume_after:
+                self.assume(goal)
             return
         hyps = list(self.pc)
         sc = self.ghost.get("schemas")
@@ -1853,6 +1860,7 @@ class Explorer:
         self.dropped = set()
         self.ob_names = {}
         self.loop_cuts = 0
+        self.dry = False
         from . import models as _m
         _m.install(self)
 
@@ -1911,6 +1919,22 @@ class Explorer:
             pending.extend(I.alts)
             results.append(PathResult(n, I, status, why))
         return results
+
+    def run_script(self, harness, script, n=0):
+        """execute the harness on exactly one path (given by its decision script)"""
+        I = Interp(self, script)
+        status, why = "ok", ""
+        try:
+            harness(I)
+        except PathCut:
+            status = "cut"
+        except Undecided as u:
+            status, why = "undecided", str(u)
+        except SymRaise as r:
+            status, why = "undecided", f"uncaught symbolic exception escaped the harness: {r.exc!r}"
+        except RecursionError:
+            status, why = "undecided", "host recursion limit"
+        return PathResult(n, I, status, why)
 
     def run_function(self, I, clo, args, kwargs=None):
         """Execute a real function symbolically on path I; exceptions become an Outcome."""
